@@ -1814,29 +1814,37 @@ NUMBERLIKE_OTHERS = {"0j", "1+2j", "dec0", "dec1.5", "frac0", "frac1/3"}
 def numberlike_free(c, o):
     """complex / Decimal / Fraction are numbers of types the property's quantifier does not list (str, bool, int/float, None, list): whether
     a container keeps such an object or turns it into its str() like the int/float it resembles is free. True iff `o` is what the documented
-    rule gives once every such value of the case is replaced by its str() (free-behaviour round: Decimal/Fraction coerced like int/float)."""
-    import copy as _copy
-    c2 = _copy.deepcopy({k: v for k, v in c.items() if not k.startswith("_")})
-    changed = []
+    rule gives once the values of SOME of those three classes in the case are replaced by their str() (free-behaviour round: Decimal/Fraction
+    coerced like int/float, complex kept)."""
+    import copy as _copy, itertools as _it
+    base = {k: v for k, v in c.items() if not k.startswith("_")}
+    classes = {"complex": {"0j", "1+2j"}, "decimal": {"dec0", "dec1.5"}, "fraction": {"frac0", "frac1/3"}}
+    for n in (1, 2, 3):
+        for chosen in _it.combinations(classes, n):
+            names = set().union(*(classes[k] for k in chosen))
+            c2 = _copy.deepcopy(base)
+            changed = []
 
-    def walk(x):
-        if isinstance(x, list):
-            if len(x) == 2 and x[0] == "o" and x[1] in NUMBERLIKE_OTHERS:
-                changed.append(x[1])
-                x[:] = ["s", str(OTHERS[OTHER_ID[x[1]]][1])]
-            else:
-                for y in x:
-                    walk(y)
-        elif isinstance(x, dict):
-            for y in x.values():
-                walk(y)
-    walk(c2)
-    if not changed:
-        return False
-    try:
-        return oracle(c2) == o
-    except Exception:
-        return False
+            def walk(x):
+                if isinstance(x, list):
+                    if len(x) == 2 and x[0] == "o" and x[1] in names:
+                        changed.append(x[1])
+                        x[:] = ["s", str(OTHERS[OTHER_ID[x[1]]][1])]
+                    else:
+                        for y in x:
+                            walk(y)
+                elif isinstance(x, dict):
+                    for y in x.values():
+                        walk(y)
+            walk(c2)
+            if not changed:
+                continue
+            try:
+                if oracle(c2) == o:
+                    return True
+            except Exception:
+                pass
+    return False
 
 
 def check_cases(ctx: Ctx, stream: str, cases: list):
